@@ -127,10 +127,11 @@ Lemma effect_write t p g c k : effect t p = (AWrite g c, k) ->
   target_of p = Some g /\ source_of p = None /\ exists cc mt, t p = Some (File cc mt) /\ k = O.
 Proof.
   unfold effect. destruct (source_of p) as [src|] eqn:S.
-  - destruct (t src); [discriminate|]. destruct keep; discriminate.
+  - destruct (t src); [discriminate|]. destruct keep; [discriminate|]. destruct (is_dir (t p)); discriminate.
   - destruct (t p) as [e|] eqn:T; [|discriminate]. destruct (target_of p) as [g'|] eqn:G; [|discriminate].
     destruct e as [cc mt|]; [|discriminate].
     destruct (lazy && newer (t g') mt); [discriminate|]. destruct (generate p cc); [|discriminate].
+    destruct (is_dir (t g')); [discriminate|].
     intros H; inversion H; subst. split; [reflexivity|]. split; [reflexivity|]. exists cc, mt. split; reflexivity.
 Qed.
 Lemma effect_remove t p g k : effect t p = (ARemove g, k) ->
@@ -138,20 +139,51 @@ Lemma effect_remove t p g k : effect t p = (ARemove g, k) ->
 Proof.
   unfold effect. destruct (source_of p) as [src|] eqn:S.
   - destruct (t src) eqn:T; [discriminate|]. destruct keep eqn:K; [discriminate|].
+    destruct (is_dir (t p)); [discriminate|].
     intros H; inversion H; subst. repeat split; try reflexivity. exists src. split; [reflexivity|exact T].
   - destruct (t p) as [e|]; [|discriminate]. destruct (target_of p) as [g'|]; [|discriminate].
     destruct e as [cc mt|]; [|discriminate].
-    destruct (lazy && newer (t g') mt); [discriminate|]. destruct (generate p cc); discriminate.
+    destruct (lazy && newer (t g') mt); [discriminate|]. destruct (generate p cc); [|discriminate].
+    destruct (is_dir (t g')); discriminate.
+Qed.
+(* a directory is never written over or removed *)
+Lemma effect_write_nodir t p g c k : effect t p = (AWrite g c, k) -> is_dir (t g) = false.
+Proof.
+  unfold effect. destruct (source_of p) as [src|] eqn:S.
+  - destruct (t src); [discriminate|]. destruct keep; [discriminate|]. destruct (is_dir (t p)); discriminate.
+  - destruct (t p) as [e|] eqn:T; [|discriminate]. destruct (target_of p) as [g'|] eqn:G; [|discriminate].
+    destruct e as [cc mt|]; [|discriminate].
+    destruct (lazy && newer (t g') mt); [discriminate|]. destruct (generate p cc); [|discriminate].
+    destruct (is_dir (t g')) eqn:D; [discriminate|]. intros H; inversion H; subst. exact D.
+Qed.
+Lemma effect_remove_nodir t p g k : effect t p = (ARemove g, k) -> is_dir (t g) = false.
+Proof.
+  unfold effect. destruct (source_of p) as [src|] eqn:S.
+  - destruct (t src) eqn:T; [discriminate|]. destruct keep eqn:K; [discriminate|].
+    destruct (is_dir (t p)) eqn:D; [discriminate|]. intros H; inversion H; subst. exact D.
+  - destruct (t p) as [e|]; [|discriminate]. destruct (target_of p) as [g'|]; [|discriminate].
+    destruct e as [cc mt|]; [|discriminate].
+    destruct (lazy && newer (t g') mt); [discriminate|]. destruct (generate p cc); [|discriminate].
+    destruct (is_dir (t g')); discriminate.
+Qed.
+Lemma apply_effect_dir t w q : is_dir (t q) = true -> apply_action (fst (effect t w)) t q = t q.
+Proof.
+  intros D. destruct (effect t w) as [a k] eqn:E. destruct a as [|g c|g]; cbn [fst Walk.apply_action]; [reflexivity| |].
+  - destruct (path_eq_dec q g) as [->|N]; [|apply upd_other; exact N].
+    apply effect_write_nodir in E. congruence.
+  - destruct (path_eq_dec q g) as [->|N]; [|apply upd_other; exact N].
+    apply effect_remove_nodir in E. congruence.
 Qed.
 (* what a handler reads *)
 Lemma effect_reads t t' p :
   (forall s, source_of p = Some s -> t' s = t s) ->
+  (forall s, source_of p = Some s -> t s = None -> t' p = t p) ->
   (source_of p = None -> t' p = t p) ->
   (forall g, source_of p = None -> t p <> None -> target_of p = Some g -> t' g = t g) ->
   effect t' p = effect t p.
 Proof.
-  intros H1 H2 H3. unfold effect. destruct (source_of p) as [src|] eqn:S.
-  - rewrite (H1 src eq_refl). reflexivity.
+  intros H1 H0 H2 H3. unfold effect. destruct (source_of p) as [src|] eqn:S.
+  - rewrite (H1 src eq_refl). destruct (t src) eqn:TS; [reflexivity|]. rewrite (H0 src eq_refl TS). reflexivity.
   - rewrite (H2 eq_refl). destruct (t p) as [e|] eqn:T; [|reflexivity].
     destruct (target_of p) as [g|] eqn:G; [|reflexivity].
     rewrite (H3 g eq_refl) by (try congruence; reflexivity). reflexivity.
@@ -173,12 +205,19 @@ Definition nfail (t : fs) (es : list path) : nat := list_sum (map (fun p => snd 
 Lemma char_nongen t es q : source_of q = None -> char t es q = t q.
 Proof. intros H. unfold char. rewrite H. reflexivity. Qed.
 
+Lemma char_dir t es q : is_dir (t q) = true -> char t es q = t q.
+Proof.
+  intros D. unfold char. destruct (source_of q) as [src|]; [|reflexivity].
+  destruct (t src); [destruct (mem src es)|destruct (mem q es)]; try reflexivity; apply apply_effect_dir; exact D.
+Qed.
+
 (* a handler that has not run yet still sees what it would have seen at the start *)
 Lemma effect_char t es p : ~ In p es -> forall T, (forall q, T q = char t es q) -> effect T p = effect t p.
 Proof.
   intros N T HT. apply effect_reads.
   - intros s S. rewrite HT. apply char_nongen.
     apply source_target in S. eapply target_not_source; exact S.
+  - intros s S TS. rewrite HT. unfold char. rewrite S, TS. apply mem_false in N. rewrite N. reflexivity.
   - intros S. rewrite HT. apply char_nongen. exact S.
   - intros g S TP G. rewrite HT. unfold char. apply source_target in G. rewrite G.
     destruct (t p) eqn:E; [|congruence]. apply mem_false in N. rewrite N. reflexivity.
@@ -486,7 +525,7 @@ Proof.
 Qed.
 
 (* ---------- well-formedness, unpacked ---------- *)
-Definition no_pattern_dirs (t : fs) : Prop := forall p, t p = Some Dir -> matches_pattern (snd p) = false.
+Definition no_pattern_dirs (t : fs) : Prop := forall p, t p = Some Dir -> source_of p = None -> matches_pattern (snd p) = false.
 Definition lazy_pre (generate : path -> bytes -> option bytes) (lazy : bool) (t : fs) : Prop :=
   lazy = true -> forall p c mt g gc gmt, visible_dir (fst p) = true -> t p = Some (File c mt) -> target_of p = Some g ->
     t g = Some (File gc gmt) -> N.ltb mt gmt = true -> generate p c = Some gc.
@@ -497,8 +536,8 @@ Proof.
   unfold wf_tree. intros H. apply andb_prop in H as [H H5]. apply andb_prop in H as [H H4].
   apply andb_prop in H as [H H3]. apply andb_prop in H as [H1 H2].
   split; [apply nodupb_sound; exact H1|]. split; [apply negb_true_iff; exact H2|]. split.
-  - intros p L. apply lookup_some_in in L. rewrite forallb_forall in H4. specialize (H4 _ L). cbn in H4.
-    apply negb_true_iff. exact H4.
+  - intros p L S. apply lookup_some_in in L. rewrite forallb_forall in H4. specialize (H4 _ L).
+    unfold dir_name_ok in H4. cbn [fst snd] in H4. rewrite S in H4. apply negb_true_iff. exact H4.
   - intros Lz p c mt g gc gmt V L G LG Lt. subst lazy. cbn in H5. rewrite forallb_forall in H5.
     apply lookup_some_in in L. specialize (H5 _ L). unfold lazy_ok in H5. cbn [fst snd] in H5.
     rewrite V in H5. cbn [negb] in H5. rewrite G, LG, Lt in H5.
@@ -552,6 +591,24 @@ Qed.
 Lemma mem_iff p es (P : Prop) : (In p es <-> P) -> (mem p es = true <-> P).
 Proof. intros H. rewrite mem_in. exact H. Qed.
 
+Definition spec_content0 (t : fs) (q : path) : content :=
+  if outside_skipped q then
+    match template_of q with
+    | Some src =>
+        match t src with
+        | Some (File c _) => match generate src c with Some code => CFile code | None => content_of (t q) end
+        | Some Dir => content_of (t q)
+        | None => if keep then content_of (t q) else CAbsent
+        end
+    | None => content_of (t q)
+    end
+  else content_of (t q).
+Lemma spec_content_split t q :
+  spec_content generate keep t q = if is_dir (t q) then CDir else spec_content0 t q.
+Proof. unfold spec_content, spec_content0. destruct (t q) as [[c m|]|]; reflexivity. Qed.
+Lemma is_dir_true o : is_dir o = true -> o = Some Dir.
+Proof. destruct o as [[c m|]|]; cbn; congruence. Qed.
+
 Theorem char_meets_spec root l es :
   wf_tree generate lazy root l = true -> events_ok l es ->
   forall (T : fs) (n : nat), (forall q, T q = char (lookup l) es q) -> n = nfail (lookup l) es ->
@@ -563,7 +620,9 @@ Proof.
   { intros p e L. unfold in_walk. rewrite L. reflexivity. }
   repeat split.
   - (* contents *)
-    intros q. rewrite HT. unfold spec_content. rewrite outside_visible, template_of_source. fold t.
+    intros q. rewrite HT, spec_content_split. fold t. destruct (is_dir (t q)) eqn:D.
+    { rewrite char_dir by exact D. rewrite (is_dir_true _ D). reflexivity. }
+    unfold spec_content0. rewrite outside_visible, template_of_source. fold t.
     unfold WalkProof.char. destruct (source_of q) as [src|] eqn:S; [|destruct (visible_dir (fst q)); reflexivity].
     pose proof (proj1 (source_target _ _) S) as G. pose proof (target_not_source _ _ G) as SS.
     destruct (target_matches _ _ G) as [M1 [M2 F]].
@@ -572,7 +631,7 @@ Proof.
       pose proof (template_in_events l es src e ND EV TS SS) as IE. fold t in IE. rewrite (INW _ _ TS) in IE.
       destruct src as [sd sn]. destruct q as [qd qn]. cbn [fst snd] in *. subst sd.
       unfold emitted in IE. rewrite M1 in IE.
-      destruct e as [c mt|]; [|exfalso; apply NPD in TS; cbn in TS; congruence].
+      destruct e as [c mt|]; [|exfalso; apply (NPD _ TS) in SS; cbn in SS; congruence].
       rewrite andb_true_r in IE. cbn [andb] in IE. rewrite andb_true_r in IE.
       destruct (visible_dir qd) eqn:V.
       * assert (Me : mem (qd, sn) es = true) by (apply mem_in, IE; reflexivity). rewrite Me.
@@ -581,12 +640,12 @@ Proof.
         -- cbn [fst apply_action]. apply andb_prop in LZ as [LZ1 LZ2]. unfold newer in LZ2.
            destruct (t (qd, qn)) as [[gc gmt|]|] eqn:TQ; try discriminate.
            rewrite (LP LZ1 (qd, sn) c mt (qd, qn) gc gmt V TS G TQ LZ2). reflexivity.
-        -- destruct (generate (qd, sn) c) as [code|]; cbn [fst apply_action]; [rewrite upd_same|]; reflexivity.
+        -- rewrite D. destruct (generate (qd, sn) c) as [code|]; cbn [fst apply_action]; [rewrite upd_same|]; reflexivity.
       * assert (Me : mem (qd, sn) es = false) by (apply mem_false; intros I; apply IE in I; discriminate). rewrite Me. reflexivity.
     + (* orphan *)
       pose proof (orphan_in_events l es q src ND EV S TS) as IE. fold t in IE.
       assert (Ef : effect t q = if keep then (ANone, O) else (ARemove q, O)).
-      { unfold Walk.effect. rewrite S, TS. reflexivity. }
+      { unfold Walk.effect. rewrite S, TS, D. reflexivity. }
       destruct (mem q es) eqn:Me.
       * apply mem_in, IE in Me. unfold in_walk in Me.
         destruct (t q) as [e|] eqn:TQ; [|discriminate]. unfold emitted in Me. destruct q as [qd qn].
@@ -596,7 +655,7 @@ Proof.
         destruct (t q) as [e|] eqn:TQ; [|reflexivity]. exfalso.
         assert (X : in_walk t q = true).
         { rewrite (INW _ _ TQ). destruct q as [qd qn]. cbn [fst snd] in *. unfold emitted. rewrite V, M2. cbn [andb].
-          destruct e; [reflexivity|]. apply NPD in TQ. cbn in TQ. congruence. }
+          destruct e; [reflexivity|discriminate D]. }
         apply IE, mem_in in X. congruence.
   - (* nothing else is touched *)
     intros q MT. rewrite HT. unfold may_touch in MT. rewrite outside_visible, template_of_source in MT.
@@ -620,26 +679,27 @@ Proof.
     intros EF. unfold exit_fail in EF. apply negb_true_iff, Nat.eqb_neq in EF. subst n.
     apply nfail_pos in EF as [p [I P]]. destruct EV as [_ [E1 E2]].
     unfold Walk.effect in P. destruct (source_of p) as [s|] eqn:S.
-    { fold t in P. destruct (t s); [cbn in P; congruence|]. destruct keep; cbn in P; congruence. }
+    { fold t in P. destruct (t s); [cbn in P; congruence|]. destruct keep; [cbn in P; congruence|].
+      destruct (is_dir (t p)); cbn in P; congruence. }
     destruct (E2 _ I) as [W|[s [S' _]]]; [|congruence].
     apply (walk_in l p ND) in W. fold t in W.
     fold t in P. destruct (t p) as [e|] eqn:TP; [|cbn in P; congruence].
     rewrite (INW _ _ TP) in W.
     destruct (target_of p) as [g|] eqn:G; [|cbn in P; congruence].
     destruct e as [c mt|].
-    2:{ apply NPD in TP. destruct (target_matches _ _ G) as [M1 _]. congruence. }
+    2:{ apply (NPD _ TP) in S. destruct (target_matches _ _ G) as [M1 _]. congruence. }
     exists p. split; [apply lookup_some_in in TP; apply (in_map fst) in TP; exact TP|].
     unfold fails. rewrite outside_visible, sibling_of_target, G. fold t. rewrite TP.
     destruct p as [pd pn]. unfold emitted in W. apply andb_prop in W as [W _]. apply andb_prop in W as [V _].
     cbn [fst]. rewrite V. cbn [andb].
     destruct (lazy && newer (t g) mt); [cbn in P; congruence|].
-    destruct (generate (pd, pn) c); [cbn in P; congruence|reflexivity].
+    destruct (generate (pd, pn) c); [|reflexivity].
+    destruct (t g) as [[gc gm|]|]; cbn in P; congruence.
   - (* a template that cannot be generated -> failure reported *)
     intros [src [I Fl]]. unfold fails in Fl. rewrite outside_visible, sibling_of_target in Fl. fold t in Fl.
-    apply andb_prop in Fl as [Fl F3]. apply andb_prop in Fl as [V F2].
+    apply andb_prop in Fl as [V F3].
     destruct (target_of src) as [g|] eqn:G; [|discriminate].
     destruct (t src) as [[c mt|]|] eqn:TS; try discriminate.
-    destruct (generate src c) eqn:GN; [discriminate|].
     pose proof (target_not_source _ _ G) as SS. destruct (target_matches _ _ G) as [M1 _].
     pose proof (template_in_events l es src _ ND EV TS SS) as IE. fold t in IE. rewrite (INW _ _ TS) in IE.
     assert (Ie : In src es).
@@ -649,8 +709,9 @@ Proof.
     destruct (lazy && newer (t g) mt) eqn:LZ.
     + apply andb_prop in LZ as [LZ1 LZ2]. unfold newer in LZ2.
       destruct (t g) as [[gc gmt|]|] eqn:TQ; try discriminate.
-      rewrite (LP LZ1 src c mt g gc gmt V TS G TQ LZ2) in GN. discriminate.
-    + rewrite GN. cbn. congruence.
+      rewrite (LP LZ1 src c mt g gc gmt V TS G TQ LZ2) in F3. discriminate.
+    + destruct (generate src c) eqn:GN; [|cbn; congruence].
+      destruct (t g) as [[gc gmt|]|]; try discriminate; cbn; congruence.
 Qed.
 
 (* a second run leaves the contents of every path as they are *)
@@ -661,6 +722,11 @@ Theorem second_run_contents root l es now2 l1 es2 :
 Proof.
   intros WF EV ND1 H1 EV2 q. destruct (wf_facts _ _ _ _ WF) as [ND [_ [NPD LP]]].
   set (t := lookup l) in *. set (t1 := lookup l1) in *.
+  destruct (is_dir (t1 q)) eqn:D1.
+  { rewrite char_dir by exact D1. reflexivity. }
+  assert (D : is_dir (t q) = false).
+  { destruct (is_dir (t q)) eqn:D; [|reflexivity]. rewrite H1 in D1.
+    rewrite (char_dir generate keep lazy now t es q D) in D1. congruence. }
   unfold WalkProof.char at 1. destruct (source_of q) as [src|] eqn:S; [|reflexivity].
   pose proof (proj1 (source_target _ _) S) as G. pose proof (target_not_source _ _ G) as SS.
   assert (T1S : t1 src = t src) by (rewrite H1; apply char_nongen; exact SS).
@@ -671,7 +737,7 @@ Proof.
     unfold Walk.effect. rewrite SS, T1S, G.
     destruct e as [c mt|]; [|reflexivity].
     destruct (lazy && newer (t1 q) mt); [reflexivity|].
-    destruct (generate src c) as [code|] eqn:GN; [|reflexivity].
+    destruct (generate src c) as [code|] eqn:GN; [|reflexivity]. rewrite D1.
     cbn [fst apply_action]. rewrite upd_same. cbn [content_of].
     (* src was an event of the first run as well *)
     assert (I1 : In src es).
@@ -689,10 +755,11 @@ Proof.
         unfold in_walk in I1. rewrite TS in I1. destruct src as [sd sn].
         unfold emitted in I1. apply andb_prop in I1 as [I1 _]. apply andb_prop in I1 as [I1 _]. exact I1. }
       rewrite (LP LZ1 src c mt q gc gmt V TS G TQ LZ2) in GN. inversion GN. reflexivity.
-    + rewrite GN. cbn [fst apply_action]. rewrite upd_same. reflexivity.
+    + rewrite GN, D. cbn [fst apply_action]. rewrite upd_same. reflexivity.
   - destruct (mem q es2) eqn:M2; [|reflexivity].
-    assert (Ef : forall tt, tt src = None -> Walk.effect generate keep lazy tt q = if keep then (ANone, O) else (ARemove q, O)).
-    { intros tt H. unfold Walk.effect. rewrite S, H. reflexivity. }
+    assert (Ef : forall tt, tt src = None -> is_dir (tt q) = false ->
+                 Walk.effect generate keep lazy tt q = if keep then (ANone, O) else (ARemove q, O)).
+    { intros tt H H'. unfold Walk.effect. rewrite S, H, H'. reflexivity. }
     rewrite (Ef t1) by congruence. destruct keep eqn:K; [reflexivity|].
     cbn [fst apply_action]. rewrite upd_same. cbn [content_of].
     (* q exists after the first run and is an event of the second: impossible, the first run removed it *)
@@ -701,7 +768,7 @@ Proof.
     apply (orphan_in_events l1 es2 q src ND1 EV2 S T1N) in M2. fold t1 in M2.
     unfold in_walk in M2. destruct (t1 q) as [e|] eqn:T1Q'; [|discriminate].
     destruct (mem q es) eqn:M1.
-    + rewrite (Ef t TS) in T1Q. cbn [fst apply_action] in T1Q. rewrite upd_same in T1Q. discriminate.
+    + rewrite (Ef t TS D) in T1Q. cbn [fst apply_action] in T1Q. rewrite upd_same in T1Q. discriminate.
     + assert (X : in_walk t q = true) by (unfold in_walk; rewrite <- T1Q; exact M2).
       apply (orphan_in_events l es q src ND EV S TS) in X. apply mem_in in X. congruence.
 Qed.
@@ -778,11 +845,13 @@ Qed.
 Lemma failure_isolated l (T : fs) failed : spec_holds generate keep l T failed ->
   (forall src, In src (map fst l) -> fails generate (lookup l) src = true -> failed = true)
   /\ (forall src g cc mt code, outside_skipped src = true -> sibling src g ->
-        lookup l src = Some (File cc mt) -> generate src cc = Some code -> content_of (T g) = CFile code).
+        lookup l src = Some (File cc mt) -> generate src cc = Some code -> lookup l g <> Some Dir ->
+        content_of (T g) = CFile code).
 Proof.
   intros [A [_ C]]. split.
   - intros src I F. apply C. exists src. split; assumption.
-  - intros src g cc mt code O Sb L G. rewrite A. unfold spec_content.
+  - intros src g cc mt code O Sb L G ND. rewrite A, spec_content_split.
+    destruct (is_dir (lookup l g)) eqn:D; [apply is_dir_true in D; contradiction|]. unfold spec_content0.
     pose proof (proj1 (sibling_iff _ _) Sb) as S. rewrite template_of_source, S.
     assert (OG : outside_skipped g = true).
     { unfold outside_skipped in *. rewrite <- (source_fst _ _ S). exact O. }
